@@ -173,6 +173,12 @@ pub fn sweep(out: &mut dyn Write, seed: u64, o: &Opts) {
         (b"ab*de", 62),
         (b"1234567890123", 2),
         (b"a1", 4),
+        // found by the proof attempt never_worse_than_ascii (session 4): a Text / C40 plan made "unbeatable" by runs of
+        // at most six digits between base-set characters never offers a switch; plain ASCII is shorter (known finding K-D)
+        (b"aaaaaaaaa123456a123456a123456a123456a123456a", 63),
+        (b"aaaaaaaaa123456a123456a123456a123456a123456a123456a123456a123456a", 63),
+        (b"AAAAAAAAA123456A123456A123456A123456A123456A", 3),
+        (b"aaaaaaaaa123456a123456a123456a123456a", 63),
     ];
     for (d, m) in corpus {
         for mask in [default_mask(), (1u64 << 48) - 1] {
